@@ -209,3 +209,64 @@ func HarnessC13_Watcher() {
 	vfQuiesce()
 	vfCover("c13-watcher-done")
 }
+
+// HarnessC13_SharedStore: the gossip store merges updates into its stored value
+// in place and hands readers clones that share token storage with it (real
+// Desc.Clone). A snapshot handed to a reader must never change afterwards, and
+// a long-lived client fed with the store's successive clones must answer like a
+// client freshly built from the latest content.
+func init() {
+	vfRegisterBubble("HarnessC13_SharedStore", HarnessC13_SharedStore)
+	vfRegisterBubble("HarnessC05_SharedStore", HarnessC05_SharedStore)
+}
+
+func HarnessC13_SharedStore() { vfSharedStore("C13") }
+
+// HarnessC05_SharedStore: the same scenario as an obligation of C05 (a lookup
+// index that disagrees with the descriptor it was built from is a broken index).
+func HarnessC05_SharedStore() { vfSharedStore("C05") }
+
+func vfSharedStore(p string) {
+	now := vfEpoch + 100000
+	vfSetNow(now)
+	nt := 1 + vfChoice("ntok", vfParam("tok", 2))
+	store := NewDesc()
+	for i := 0; i < 2; i++ {
+		id := vfIDs[i]
+		store.Ingesters[id] = InstanceDesc{Id: id, Addr: "addr-" + id, Zone: "z", State: ACTIVE, Timestamp: now - 10,
+			RegisteredTimestamp: now - 1000, Tokens: vfSymTokens("tok_"+id, nt)}
+	}
+	vfAssumeDistinctTokens(store)
+	snap1 := store.Clone().(*Desc)
+	before := vfCloneFull(snap1) // deep copy: what the reader was given
+	client := vfNewRingClient(1, false, true)
+	client.updateRingState(snap1)
+	// a newer update of i0: same number of tokens, different values (restart with new tokens)
+	upd := NewDesc()
+	x := store.Ingesters["i0"]
+	x.Timestamp = now
+	x.Tokens = vfSymTokens("new_tok", nt)
+	upd.Ingesters["i0"] = x
+	merged := vfCloneFull(store)
+	merged.Ingesters["i0"] = InstanceDesc{Id: "i0", Addr: x.Addr, Zone: "z", State: ACTIVE, Timestamp: now, RegisteredTimestamp: x.RegisteredTimestamp,
+		Tokens: append([]uint32(nil), x.Tokens...)}
+	vfAssumeDistinctTokens(merged)
+	_, err := store.mergeWithTime(upd, false, time.Unix(now, 0))
+	vfAssert(err == nil, p+" merge succeeds")
+	vfAssert(vfSameDesc(snap1, before), p+" a snapshot handed to a reader is never modified by later merges")
+	snap2 := store.Clone().(*Desc)
+	client.updateRingState(snap2)
+	fresh := vfNewRingClient(1, false, true)
+	fresh.updateRingState(vfCloneFull(store))
+	key := vfU32("key")
+	a, e1 := client.Get(key, Write, nil, nil, nil)
+	b, e2 := fresh.Get(key, Write, nil, nil, nil)
+	vfAssert((e1 == nil) == (e2 == nil), p+" the long-lived client fails exactly when a fresh one does")
+	if e1 == nil && e2 == nil {
+		vfAssert(len(a.Instances) == len(b.Instances), p+" the long-lived client answers like a fresh one")
+		if len(a.Instances) == 1 && len(b.Instances) == 1 {
+			vfAssert(a.Instances[0].Id == b.Instances[0].Id, p+" after a token change delivered through shared snapshots the long-lived client answers like a fresh one")
+		}
+	}
+	vfCover("sharedstore-done")
+}
